@@ -32,10 +32,19 @@ func parseNewick(s string) (*tree.Tree, error) {
 func cliCase(c *core.Ctx, i int) {
 	kind := cliKinds[i%len(cliKinds)]
 	k := 1 + c.G.Intn(3)
+	// a history of trees with DIFFERENT tip sets (growing: t0..t4, then t0..t8, …), the outgroup taken
+	// in the last one and its names that the first tree lacks listed first
+	growing := strings.HasPrefix(kind, "outgroup") && c.G.Chance(0.5)
+	if growing && k == 1 {
+		k = 2
+	}
 	var ns []*core.N
 	for j := 0; j < k; j++ {
 		o := opts(c.G)
 		o.InnerNames = 0
+		if growing {
+			o.MinTips, o.MaxTips = 4+3*j, 5+3*j
+		}
 		n, _ := c.G.Tree(o)
 		switch r := c.G.Intn(100); {
 		case r < 8:
@@ -47,12 +56,16 @@ func cliCase(c *core.Ctx, i int) {
 	}
 	// an outgroup drawn in the first tree (the other trees have the same tip names t0..tk when of equal size)
 	var S []string
-	all := ns[0].TipNames()
+	src := ns[0]
+	if growing {
+		src = ns[len(ns)-1]
+	}
+	all := src.TipNames()
 	switch c.G.Intn(3) {
 	case 0:
-		paths := ns[0].Paths()
+		paths := src.Paths()
 		if len(paths) > 1 {
-			S = ns[0].At(paths[1+c.G.Intn(len(paths)-1)]).Leaves()
+			S = src.At(paths[1+c.G.Intn(len(paths)-1)]).Leaves()
 		}
 	case 1:
 		perm := c.G.R.Perm(len(all))
@@ -64,6 +77,25 @@ func cliCase(c *core.Ctx, i int) {
 	}
 	if c.G.Chance(0.2) {
 		S = append(S, "zz1")
+	}
+	if growing {
+		// names absent from the first tree first
+		in0 := map[string]bool{}
+		for _, x := range ns[0].TipNames() {
+			in0[x] = true
+		}
+		var a, b []string
+		for _, x := range S {
+			if in0[x] {
+				b = append(b, x)
+			} else {
+				a = append(a, x)
+			}
+		}
+		if len(b) == 0 {
+			b = append(b, ns[0].TipNames()[0])
+		}
+		S = append(a, b...)
 	}
 	var fileLines []string
 	if kind == "outgroup-file" || kind == "outgroup-stdin" {
